@@ -79,6 +79,8 @@ theorem source_constants :
     CTM.Generated.SparseConsts.transposeMinLoadChunk = minLoadChunk ∧
     CTM.Generated.SparseConsts.transposeMinElements = minElements ∧
     CTM.Generated.SparseConsts.dexBytes = dexBytes ∧
+    CTM.Generated.SparseConsts.joinBlock = joinBlockSize ∧
+    1 ≤ CTM.Generated.SparseConsts.joinBlock ∧
     1 ≤ CTM.Generated.SparseConsts.countMinLoadChunk ∧
     1 ≤ CTM.Generated.SparseConsts.transposeMinLoadChunk ∧
     1 ≤ CTM.Generated.SparseConsts.transposeMinElements := by decide
@@ -288,6 +290,30 @@ theorem v2_eq {α} (M : Mat α) (indicesMax nProc : Nat) (B B' : Budget)
 
 example : transposeV2 M0 3 2 ⟨1, 1, 1⟩ = transposeOnDisk M0 3 none ⟨5, 5, 5⟩ := rfl
 example : chunks 3 (ceilDiv 3 2) = [(0, 2), (2, 3)] := by decide
+
+/-- **`v2_join_blocks`** — the joining loop of
+`_transpose_sparse_matrix_on_disk_v2` copies every worker's `indices` (and
+`data`, when there is one) into the final arrays in blocks of `chunk_size`
+entries at a running destination offset (`dst1 = dst0 + (src1-src0)`,
+`dst[dst0:dst1] = src[src0:src1]`, `dst0 = dst1`).  For **every block size
+`≥ 1`** (the literal 1 000 000 is tied by `source_constants`) this blockwise
+copy is the whole copy: the parallel transposition with the blockwise join
+equals `transposeV2` — for every matrix, budget and worker count, with a value
+array (`α` arbitrary) and without (`α := Unit`). -/
+theorem v2_join_blocks {α} (zero : α) (M : Mat α) (indicesMax nProc : Nat) (B : Budget)
+    (blk : Nat) (hblk : 1 ≤ blk) :
+    transposeV2Blocked zero M indicesMax nProc B blk = transposeV2 M indicesMax nProc B ∧
+    (∀ (dst : List Nat) (dst0 : Nat) (src : List Nat), dst0 + src.length ≤ dst.length →
+      blockCopyInto blk dst dst0 src = (writeAt dst dst0 src, dst0 + src.length)) :=
+  ⟨transposeV2Blocked_eq zero M indicesMax nProc B blk hblk,
+   fun dst dst0 src h => blockCopyInto_eq blk hblk dst dst0 src h⟩
+
+example : transposeV2Blocked 0 M0 3 2 ⟨1, 1, 1⟩ 2
+    = .ok ⟨[0, 2, 3, 5], [0, 2, 1, 0, 2], [1, 4, 3, 2, 5]⟩ := rfl
+example : blockCopyInto 2 [0, 0, 0, 0, 0, 0, 0] 1 [7, 8, 9, 10, 11]
+    = ([0, 7, 8, 9, 10, 11, 0], 6) := by decide
+example : transposeV2Blocked () (⟨[0, 2, 3, 5], [0, 2, 1, 0, 2], [(), (), (), (), ()]⟩ : Mat Unit)
+    3 1 ⟨1, 1, 1⟩ 2 = .ok ⟨[0, 2, 3, 5], [0, 2, 1, 0, 2], [(), (), (), (), ()]⟩ := rfl
 
 /-- the sub-ranges handed to the workers partition `[0, indices_max)` in
 order, for every worker count `≥ 1`. -/
